@@ -20,7 +20,7 @@ ID = 'C12'
 MODEL_TARGETS = ['theories/C12/Run.vo']
 PROOF_TARGETS = ['theories/C12/Properties.vo']
 PROPERTIES_V = 'theories/C12/Properties.v'
-IMPORTS = 'Require Import FV.Gen.C12 FV.C12.Model FV.C12.ConcModel FV.C12.Run.'
+IMPORTS = 'Require Import FV.Gen.C12 FV.C12.Model FV.C12.ConcModel FV.C12.ReModel FV.C12.Run.'
 CASE_TYPE = 'case'
 CHECK = 'check_case'
 SHARD_SIZE = 300
@@ -40,13 +40,23 @@ RULE = ('msgs: random descriptions (1-3 modules incl. one named "None" sometimes
         'or an error report, unsolicited update / error_update lines for the same and other parameters, junk lines; '
         'timestamps relative to the virtual clock) and a thread schedule at synchronisation-point granularity incl. the '
         'entry of updateValue (seeded random, sticky random, every single preemption point of four fixed scenarios, pairs); '
-        'every run is a real multi-thread execution, replayable from its decision list.  Non-trivial: at least one '
-        'accepted message (msgs) / one completed write (e2e) / one returned call (conc); '
+        'every run is a real multi-thread execution, replayable from its decision list; re: histories of accepted update '
+        'lines / register / unregister on a fixed description (3 parameters in 2 modules) with a program per callback '
+        'function (per invocation: 0-2 register/unregister calls on the same or another list, then return / '
+        'UnregisterCallback / exception; a callback registers only callbacks with a higher id so that the lists grow at most '
+        'polynomially), plus the hand-over family (one-shot callback registers its successor on the same or '
+        'another key, a callback registers itself again, a callback unregisters another one); a run is cut after 3000 '
+        'invocations (reported as raised).  Non-trivial: at least one '
+        'accepted message (msgs) / one completed write (e2e) / one returned call (conc) / one dispatched callback (re); '
         'distinct = distinct (description, ops, behaviours) / (datainfo, value, driver result) / (callers, peer, executed steps)')
 ASSUMPTIONS = [
     'module names and accessible names of a description contain no colon and give distinct internal names per module '
     '(a description with "_x" and "x" in one module makes two wire parameters share one cache key: outside the property)',
-    'callbacks do not call back into the client (register/unregister from inside a callback is not generated)',
+    're: callbacks call back into the client only with register_callback / unregister_callback, from invocations made by '
+    'the dispatch of a message (immediate invocations made by a registration and handleError invocations only return or '
+    'raise); a callback that another callback unregisters never raises UnregisterCallback (the implementation then raises '
+    'ValueError from cblist.remove and aborts the dispatch: observation in notes/C12.md, ReModel.rbad); msgs / conc: '
+    'callbacks do not call back into the client',
     'datatype.import_value/export_value enter the model as tables computed by a specification-side importer/exporter '
     'written from the SECoP datatype definitions (harness/props/C12.py spec_import/spec_export); payloads whose '
     'acceptance the specification leaves open (bool for a number, wrong tuple length, ...) are not generated',
@@ -652,9 +662,16 @@ def run_msgs(case):
             pass
 
 
+def _re():
+    from harness import c12_re
+    return c12_re
+
+
 def run_case(case):
     if case['kind'] == 'msgs':
         return run_msgs(case)
+    if case['kind'] == 're':
+        return _re().run_re(case)
     if case['kind'] == 'conc':
         from harness import c12_conc
         return c12_conc.run_conc(case)
@@ -794,6 +811,8 @@ def encode_msgs(case, obs):
 def encode(case, obs):
     if case['kind'] == 'msgs':
         return '(' + encode_msgs(case, obs) + ')'
+    if case['kind'] == 're':
+        return '(' + _re().encode_re(case, obs) + ')'
     if case['kind'] == 'conc':
         from harness import c12_conc
         return '(' + c12_conc.encode_conc(case, obs) + ')'
@@ -802,6 +821,8 @@ def encode(case, obs):
 
 
 def model_result_term(case, obs):
+    if case['kind'] == 're':
+        return f'model_re {encode(case, obs)}'
     if case['kind'] == 'conc':
         return f'(model_conc {encode(case, obs)}, model_result {encode(case, obs)})'
     return f'model_result {encode(case, obs)}'
@@ -909,6 +930,8 @@ def oracle_msgs(case, obs):
 def oracle(case, obs):
     if case['kind'] == 'msgs':
         return oracle_msgs(case, obs)
+    if case['kind'] == 're':
+        return _re().oracle_re(case, obs)
     if case['kind'] == 'conc':
         from harness import c12_conc
         return c12_conc.oracle_conc(case, obs)
@@ -958,6 +981,8 @@ def nontrivial_key(case, obs):
         return json.dumps([case['desc'], case['dts'], case['ops'], case['beh']], sort_keys=True)
     if case['kind'] == 'conc':
         return _conc().nontrivial_key(case, obs)
+    if case['kind'] == 're':
+        return _re().nontrivial_key(case, obs)
     from harness import c12_e2e
     return c12_e2e.nontrivial_key(case, obs)
 
@@ -984,6 +1009,8 @@ def outcome_labels(case, obs):
             labs.add('cache:' + ('error' if e[2] else e[0][0]))
     elif case['kind'] == 'conc':
         labs.update(_conc().outcome_labels(case, obs))
+    elif case['kind'] == 're':
+        labs.update(_re().outcome_labels(case, obs))
     else:
         from harness import c12_e2e
         labs.update(c12_e2e.outcome_labels(case, obs))
@@ -994,6 +1021,8 @@ def sample_repr(case, obs):
     if case['kind'] == 'msgs':
         return {'desc': case['desc'], 'ops': case['ops'][:8], 'beh': case['beh'], 'final_cache': obs['cache'][:4],
                 'invocations': obs['invs'][:6]}
+    if case['kind'] == 're':
+        return {'case': case, 'events': obs['events'][:40], 'final_lists': [x for x in obs['lists'] if x[2]]}
     if case['kind'] == 'conc':
         return {'case': case, 'lines': obs['lines'][:6], 'returns': obs['returns'][:4],
                 'steps': [f'{t}:{lab}' for t, lab, _ in obs['trace']][:60]}
@@ -1204,6 +1233,8 @@ def gen_cases(seed, tier):
     e2e = c12_e2e.gen_e2e_cases(rng, tier)
     rng2 = random.Random(seed * 1000003 + 1212)       # own stream: the cases above stay what they were
     cases.extend(_conc().gen_conc_cases(rng2, tier))
+    rng3 = random.Random(seed * 1000003 + 121212)     # callbacks that register / unregister callbacks (c12_re.py)
+    cases.extend(_re().gen_re_cases(rng3, tier))
     # the end-to-end cases (real sockets, ~0.4 s each) are spread over the list so that the worker pool (contiguous
     # chunks) shares them
     if e2e:
@@ -1225,6 +1256,9 @@ def search_cases(seed, mismatching):
 def shrink(case):
     if case['kind'] == 'conc':
         yield from _conc().shrink(case)
+        return
+    if case['kind'] == 're':
+        yield from _re().shrink(case)
         return
     if case['kind'] != 'msgs':
         return
